@@ -16,7 +16,7 @@ from .kernel import Decider, HarnessError
 
 TIERS = {
     "C18": {"quick": dict(runs=48_000, wall_cap=75, chunk=250), "thorough": dict(runs=3_000_000, wall_cap=900, chunk=1000)},
-    "C19": {"quick": dict(runs=24_000, wall_cap=90, chunk=100), "thorough": dict(runs=1_500_000, wall_cap=1200, chunk=400)},
+    "C19": {"quick": dict(runs=16_000, wall_cap=100, chunk=100), "thorough": dict(runs=1_500_000, wall_cap=1200, chunk=400)},
     "C10": {"quick": dict(runs=1_600, wall_cap=120, chunk=10), "thorough": dict(runs=60_000, wall_cap=1500, chunk=20)},
 }
 
@@ -41,7 +41,9 @@ def cmd_check(args) -> int:
     extra = {}
     if hasattr(mod, "post_batch"):
         extra = mod.post_batch(tier, seed, total) or {}
+    direct = extra.pop("direct_violations", []) if isinstance(extra, dict) else []
     known, new = runner.triage(prop, total)
+    new.extend(direct)
     runner.write_evidence(prop, tier, seed, total, known, new, mod, extra=extra)
     print(f"[{prop}] runs={total['runs']} nontrivial={total['nontrivial']} distinct={len(total['digests'])} "
           f"wall={total['wall_s']:.1f}s violations_raw={len(total['violations'])} new={len(new)} known={len(known)}"
